@@ -183,6 +183,13 @@ def run(chk):
                 lines.append("push(__o, L%d.%s);" % (d, name))
             for d in touched:
                 lines.append("push(__o, [%s]);" % ", ".join("L%d.%s" % (d, n) for n in all_props(d)))
+            # before the packet is written: look at the layers through every accessor their parents have, matching or not
+            # (what a mismatching accessor returns is unspecified; that it leaves the packet alone is not)
+            SIB = {"eth": ("ipv4", "ipv6", "vlan"), "vlan": ("ipv4", "ipv6", "vlan"), "ipv4": ("udp", "tcp", "ipv6"), "ipv6": ("udp", "tcp")}
+            if ji % 3 == 0:
+                for d in touched:
+                    if d > 0 and stack[d - 1] in SIB:
+                        lines.append(" ".join("%s.%s;" % (path_expr("p", stack, d - 1), acc) for acc in SIB[stack[d - 1]]))
             lines.append("let o = pcap_open(%s, \"w\"); pcap_write(o, p); push(__o, \"written\");" % lit(outp))
             inner_d = None
             if depth is not None and depth + 1 < len(stack) and asg[0][1] not in ("type", "proto", "nextheader"):
